@@ -1,0 +1,24 @@
+//! verif-hooks: read-only view of one chain service's `is_pending_verify` set, for the /verif harness.
+//!
+//! After a restart `InitLoadUnverified` re-submits blocks WITHOUT callback, so a harness cannot
+//! count callbacks to learn that the verify queue is empty. The chain-service thread registers
+//! (a weak reference to) its pending set under the address of the node's `OrphanBlockPool` (which
+//! `ChainController` and `OrphanBroker` share); `ChainController::verif_pending_len` reads its size.
+//! Nothing is written, no behaviour changes.
+use ckb_types::packed::Byte32;
+use dashmap::DashSet;
+use std::collections::HashMap;
+use std::sync::{Arc, Mutex, OnceLock, Weak};
+
+static REGISTRY: OnceLock<Mutex<HashMap<usize, Weak<DashSet<Byte32>>>>> = OnceLock::new();
+
+pub(crate) fn register(key: usize, set: &Arc<DashSet<Byte32>>) {
+    let mut map = REGISTRY.get_or_init(|| Mutex::new(HashMap::new())).lock().expect("verif_idle registry");
+    map.insert(key, Arc::downgrade(set));
+}
+
+/// `None`: no live chain service is registered under `key` (not started yet, or stopped)
+pub(crate) fn pending_len(key: usize) -> Option<usize> {
+    let map = REGISTRY.get_or_init(|| Mutex::new(HashMap::new())).lock().expect("verif_idle registry");
+    map.get(&key).and_then(|w| w.upgrade()).map(|s| s.len())
+}
